@@ -542,18 +542,24 @@ class Graph(object):
                 if param is None or not np.array_equal(param.value.to_array(), e.offset.to_array()):
                     raise ValueError("The offset (ID: {}) of landmark edge {} is not in the graph's g2o parameters".format(e.offset_id, e.vertex_ids))  # fmt: skip
 
+        # Format everything before the file is opened (and truncated), so that an element that cannot be written
+        # (`NotImplementedError`) does not leave a partial -- but loadable, and therefore different -- graph behind
+        lines = []
+        if self._g2o_params:
+            for g2o_param in self._g2o_params.values():
+                lines.append(g2o_param.to_g2o())
+
+        for v in self._vertices:
+            lines.append(v.to_g2o())
+
+        for e in self._edges:
+            edge_str_or_none = e.to_g2o()
+            if edge_str_or_none:
+                lines.append(edge_str_or_none)
+
         with open(outfile, "w") as f:
-            if self._g2o_params:
-                for g2o_param in self._g2o_params.values():
-                    f.write(g2o_param.to_g2o())
-
-            for v in self._vertices:
-                f.write(v.to_g2o())
-
-            for e in self._edges:
-                edge_str_or_none = e.to_g2o()
-                if edge_str_or_none:
-                    f.write(edge_str_or_none)
+            for line in lines:
+                f.write(line)
 
     @classmethod
     def from_g2o(cls, infile, custom_edge_types=None):
